@@ -83,7 +83,7 @@ theorem step_aget (kd : Kind) (hk : kd.isVec = true) (s : State) (a : Nat) (v : 
   cases normIndex v.len i <;> simp [Eff.apply]
 
 theorem step_aset (kd : Kind) (hk : kd.isVec = true) (s : State) (a : Nat) (v : View) (i k : Int)
-    (ha : s.arrs a = some v) (hi : okIdx i = true) (hkk : okInt k = true) :
+    (ha : s.arrs a = some v) (hdt : v.dt = 0) (hi : okIdx i = true) (hkk : okInt k = true) :
     step kd s (.v (.aset a i k)) =
       (match normIndex v.len i with
        | none => (s, Err.index.show)
@@ -91,7 +91,7 @@ theorem step_aset (kd : Kind) (hk : kd.isVec = true) (s : State) (a : Nat) (v : 
          (s.write v.blk ((s.read v.blk).set (v.pos p) k),
           showInts ((s.write v.blk ((s.read v.blk).set (v.pos p) k)).viewVals v))) := by
   rw [step_v kd hk]
-  simp only [vecEff, ha, hi, hkk]
+  simp only [vecEff, ha, hi, hkk, hdt, dtOk]
   cases normIndex v.len i <;> simp [Eff.apply]
 
 theorem step_copy (n : Nat) (s : State) (x y b : Nat) (hy : s.xs y = some b) :
@@ -125,19 +125,34 @@ theorem step_inplaceV (kd : Kind) (hk : kd.isVec = true) (s : State) (isSub : Bo
 
 /-- `nscale`: `x *= k` on a NumPy-backed C++ vector writes the scaled values through the view -/
 theorem step_nscale (kd : Kind) (hk : kd.isVec = true) (s : State) (a : Nat) (v : View) (k : Int)
-    (ha : s.arrs a = some v) (hkk : okInt k = true) (hok : okVals (vscale k (s.viewVals v)) = true) :
+    (ha : s.arrs a = some v) (hdt : v.dt = 0) (hkk : okInt k = true) (hok : okVals (vscale k (s.viewVals v)) = true) :
     step kd s (.v (.nscale a k)) =
       (s.viewWrite v (vscale k (s.viewVals v)), showInts ((s.viewWrite v (vscale k (s.viewVals v))).viewVals v)) := by
-  simp [step, hk, vecEff, ha, hkk, hok, Eff.apply]
+  simp [step, hk, vecEff, ha, hkk, hok, Eff.apply, nvWrite, hdt]
 
 /-- `nset`: `x[i] = k` on a NumPy-backed C++ vector -/
 theorem step_nset (kd : Kind) (hk : kd.isVec = true) (s : State) (a : Nat) (v : View) (p : Nat) (k : Int)
-    (ha : s.arrs a = some v) (hkk : okInt k = true) (hp : p < v.len) :
+    (ha : s.arrs a = some v) (hdt : v.dt = 0) (hkk : okInt k = true) (hp : p < v.len) :
     step kd s (.v (.nset a (p : Int) k)) =
       (s.write v.blk ((s.read v.blk).set (v.pos p) k),
        showInts ((s.write v.blk ((s.read v.blk).set (v.pos p) k)).viewVals v)) := by
   have h1 : ¬ ((p : Int) < 0) := by omega
   have h2 : ¬ ((p : Int) ≥ (v.len : Int)) := by omega
-  simp [step, hk, vecEff, ha, hkk, h1, h2, Eff.apply]
+  simp [step, hk, vecEff, ha, hkk, h1, h2, Eff.apply, nvWriteCell, hdt]
+
+/-- a writing operation of a NumPyVector over a buffer that does not hold doubles never changes the store -/
+theorem nvWrite_foreign (s : State) (v : View) (R : List Int) (hdt : v.dt ≠ 0) :
+    ((nvWrite s v R).apply s).1 = s := by
+  unfold nvWrite
+  split
+  · rfl
+  · simp [hdt, Eff.apply]
+
+theorem nvWriteCell_foreign (s : State) (v : View) (p : Nat) (k : Int) (hdt : v.dt ≠ 0) :
+    ((nvWriteCell s v p k).apply s).1 = s := by
+  unfold nvWriteCell
+  split
+  · rfl
+  · simp [hdt, Eff.apply]
 
 end DV.C20
